@@ -25,7 +25,7 @@ import XotModel.Lemmas.SerTokensLexTop
 import XotModel.Lemmas.SerTokensDecode
 import XotModel.Lemmas.SerTokensPieces
 import XotModel.Lemmas.RoundTripTokens
-import XotModel.Lemmas.RoundTripTop
+import XotModel.Lemmas.RoundTripEncode
 import XotModel.Props.C02
 
 namespace XotModel.Props
@@ -287,5 +287,106 @@ theorem C01_main_fragment (env : Env) (t : Tree) (hr : RepresentableFragment env
   refine ⟨ts, p, hl, hp, by rw [h1]; exact hv, ?_⟩
   rw [h1, h2, hd]
   exact (spellTop_denote hf).1.symm
+
+/-! ### Strengthening: the reparsed tree IS the original tree
+
+Every string of `t` is interned in `env` already (an id outside the tables cannot occur in a
+`Representable` tree the serialiser accepts), so reparsing into the same `Xot` interns nothing and
+every id comes back: literal equality of the id trees, declarations and prefixes included. -/
+
+/-- Encoding the abstract document `t` reads back as (ids interned in document order, as the
+    parser does) gives `t` back and leaves the tables alone. -/
+theorem C01_encode_decode (env : Env) (t : Tree) (hr : RepresentableFragment env t = true)
+    (ts : List Token) (h : serTokensTop env t = .ok ts) :
+    NPNode.encode.encodeList env (NSNode.denote.denoteList baseScope (spellTop env t)) = (env, t.kids) := by
+  obtain ⟨ks, rfl, hf⟩ := topFacts hr h
+  exact spellTop_encode hf
+
+/-- **C01_build** (`parse` without the tokenizer): the builder, run on the tokens `to_string` renders
+    (any source length, any byte positions: `C02_positions_irrelevant`), returns the original tree
+    and leaves the interning tables unchanged. -/
+theorem C01_build (env : Env) (t : Tree) (hr : Representable env t = true) (ts : List Token)
+    (h : serTokensTop env t = .ok ts) (len : Nat) :
+    ∃ p, build .document len env ts none = .ok p ∧ p.tree = t ∧ p.env = env := by
+  simp only [Representable, Bool.and_eq_true] at hr
+  obtain ⟨hfrag, hsingle⟩ := hr
+  obtain ⟨ks, rfl, hf⟩ := topFacts hfrag h
+  obtain ⟨p0, hb, ht, he⟩ := build_document_spelled_ns hf.he.envBaseNs len
+    (spellTop env (.node .document ks)) (spellTop_well hf)
+    (wellFormedTop_of_abstractNs (spellTop_abstractTop hf hsingle))
+  rw [spell_tokens env _ ts h] at hb
+  rw [spellTop_encode hf] at ht he
+  exact ⟨p0, hb, ht, he⟩
+
+/-- `parse_fragment` without the tokenizer. -/
+theorem C01_build_fragment (env : Env) (t : Tree) (hr : RepresentableFragment env t = true)
+    (ts : List Token) (h : serTokensTop env t = .ok ts) (len : Nat) :
+    ∃ p, build .fragment len env ts none = .ok p ∧ p.tree = t ∧ p.env = env := by
+  obtain ⟨ks, rfl, hf⟩ := topFacts hr h
+  obtain ⟨p0, hb, ht, he⟩ := build_fragment_spelled_ns hf.he.envBaseNs len
+    (spellTop env (.node .document ks)) (spellTop_well hf)
+  rw [spell_tokens env _ ts h] at hb
+  rw [spellTop_encode hf] at ht he
+  exact ⟨p0, hb, ht, he⟩
+
+/-- **C01_main, strong form** (`parse`): the reparsed tree is the original tree, node for node and id
+    for id — names, attribute sets and values, character data, comments, PIs, namespace declarations
+    on the same elements with the same prefix-to-URI bindings — and the interning tables are
+    unchanged. -/
+theorem C01_main_identical (env : Env) (t : Tree) (hr : Representable env t = true)
+    (lex : Str → List Token × Option Nat) (hlex : LexCanon false lex) (s : Str)
+    (hs : toXmlString env t [] = .ok s) :
+    ∃ ts p, lex s = (ts, none) ∧ build .document (strLen s) env ts none = .ok p ∧
+      p.tree = t ∧ p.env = env := by
+  have hfrag : RepresentableFragment env t = true := by
+    simp only [Representable, Bool.and_eq_true] at hr; exact hr.1
+  obtain ⟨ts0, hser, rfl⟩ := representable_ser hfrag hs
+  obtain ⟨ts, hl, her⟩ := hlex ts0 (C01_rendering_lexok env t hr ts0 hser)
+  obtain ⟨p0, hb, ht, he⟩ := C01_build env t hr ts0 hser (strLen (renderTokens ts0))
+  obtain ⟨p, hp, h1, h2, _⟩ := C02_positions_irrelevant_ok .document _ (strLen (renderTokens ts0)) env ts0 ts
+    her.symm p0 hb
+  exact ⟨ts, p, hl, hp, by rw [h1, ht], by rw [h2, he]⟩
+
+/-- **C01_main_fragment, strong form** (`parse_fragment`). -/
+theorem C01_main_fragment_identical (env : Env) (t : Tree) (hr : RepresentableFragment env t = true)
+    (lex : Str → List Token × Option Nat) (hlex : LexCanon true lex) (s : Str)
+    (hs : toXmlString env t [] = .ok s) :
+    ∃ ts p, lex s = (ts, none) ∧ build .fragment (strLen s) env ts none = .ok p ∧
+      p.tree = t ∧ p.env = env := by
+  obtain ⟨ts0, hser, rfl⟩ := representable_ser hr hs
+  obtain ⟨ts, hl, her⟩ := hlex ts0 (C01_rendering_lexok_fragment env t hr ts0 hser)
+  obtain ⟨p0, hb, ht, he⟩ := C01_build_fragment env t hr ts0 hser (strLen (renderTokens ts0))
+  obtain ⟨p, hp, h1, h2, _⟩ := C02_positions_irrelevant_ok .fragment _ (strLen (renderTokens ts0)) env ts0 ts
+    her.symm p0 hb
+  exact ⟨ts, p, hl, hp, by rw [h1, ht], by rw [h2, he]⟩
+
+/-! Non-vacuity (the document `c01Doc` above: default namespace, prefixed child, attribute value with
+    `<&"` TAB, text `]]>` CR, comment, PIs): the hypotheses hold by `decide`; it reads back as the
+    abstract document below; the builder on its tokens returns it; so does `parse` with any tokenizer
+    meeting the contract. -/
+
+example : decodeNs c01Env c01Doc.kids = some
+    [.comment ['h', 'i'],
+     .elem ['u', 'r', 'n', ':', 'a'] ['r'] [([], ['u', 'r', 'n', ':', 'a']), (['p'], ['u', 'r', 'n', ':', 'b'])]
+       [(([], ['k']), ['<', '&', '"', '\t'])]
+       [.elem ['u', 'r', 'n', ':', 'b'] ['c'] [] [] [], .text [']', ']', '>', '\r'], .pi ['t'] (some ['d'])],
+     .pi ['t'] none] := rfl
+
+example : ∃ ts p, serTokensTop c01Env c01Doc = .ok ts ∧ renderTokens ts = c01Text ∧
+    build .document (strLen c01Text) c01Env ts none = .ok p ∧ p.tree = c01Doc ∧ p.env = c01Env := by
+  obtain ⟨ts, h1, h2⟩ := C01_serialised_is_rendering_ok c01Env c01Doc (by decide) (by decide) c01Text
+    (by decide)
+  obtain ⟨p, h3, h4, h5⟩ := C01_build c01Env c01Doc (by decide) ts h1 (strLen c01Text)
+  exact ⟨ts, p, h1, h2.symm, h3, h4, h5⟩
+
+example (lex : Str → List Token × Option Nat) (hlex : LexCanon false lex) :
+    ∃ ts p, lex c01Text = (ts, none) ∧ build .document (strLen c01Text) c01Env ts none = .ok p ∧
+      p.tree = c01Doc ∧ p.env = c01Env :=
+  C01_main_identical c01Env c01Doc (by decide) lex hlex c01Text (by decide)
+
+example : WellNsDoc (spellTop c01Env c01Doc) := by
+  obtain ⟨ts, h1, _⟩ := C01_serialised_is_rendering_ok c01Env c01Doc (by decide) (by decide) c01Text
+    (by decide)
+  exact C01_spelling_well c01Env c01Doc (by decide) ts h1
 
 end XotModel.Props
